@@ -172,9 +172,9 @@ def order(rc):
         rc.fail(f, f.node, "variables to eliminate = model variables minus query minus evidence", construct="to_eliminate")
         return
     TE = te_b["_TE"]
-    tbls = [v for v in d.values() if isinstance(v, ast.Dict) and v.keys and all(isinstance(k, ast.Constant) and isinstance(k.value, str) for k in v.keys) and any(dotted(x) == "MinFill" for x in v.values)]
+    tbls = [v for v in walk_no_nested(f.node) if isinstance(v, ast.Dict) and v.keys and all(isinstance(k, ast.Constant) and isinstance(k.value, str) for k in v.keys) and any(dotted(x) == "MinFill" for x in v.values)]
     tbl = tbls[0] if tbls else None
-    tname = [k for k, v in d.items() if v is tbl][0] if tbl is not None else None
+    tname = ([k for k, v in d.items() if v is tbl] or [None])[0] if tbl is not None else None
     want = {"weightedminfill": "WeightedMinFill", "minneighbors": "MinNeighbors", "minweight": "MinWeight", "minfill": "MinFill"}
     if not isinstance(tbl, ast.Dict):
         raise AnalysisError("_get_elimination_order: heuristic table not found")
@@ -182,7 +182,7 @@ def order(rc):
     rc.ob(f"heuristic table {got}")
     if got != want:
         rc.fail(f, tbl, f"heuristic names must map to the heuristic of that name: {got}", construct="heuristic table")
-    look = [n for n in walk_no_nested(f.node) if isinstance(n, ast.Subscript) and dotted(n.value) == tname]
+    look = [n for n in walk_no_nested(f.node) if isinstance(n, ast.Subscript) and (n.value is tbl or (tname is not None and dotted(n.value) == tname))]
     if not look or norm(look[0].slice) != "elimination_order.lower()":
         rc.fail(f, f.node, "the heuristic is selected by the lower-cased name", construct="heuristic lookup")
     call = [c for c in repo.calls_in(f) if call_name(c) == "get_elimination_order"]
@@ -238,7 +238,7 @@ def order(rc):
         n1, b1 = tm.find(lp, "_P = getattr(_P, operation)([_v], inplace=False)", {"_v": v_})
         if n1 is None:
             continue
-        okl = tm.has(lp, "del _WF[_v]", {"_v": v_}) and tm.has(lp, "_EL.add(_v)", {"_v": v_}) and tm.has(lp, "_P = factor_product(*_F)", {"_P": b1["_P"]}) \
+        okl = tm.has(lp, "del _WF[_v]", {"_v": v_}) and tm.has(lp, "_EL.add(_v)", {"_v": v_}) and tm.has(lp, "_P = factor_product(*__F)", {"_P": b1["_P"]}) \
             and bool(tm.find_all(lp, "not set(_f.variables).intersection(_EL)"))
     rc.ob(f"elimination loop: product of the live factors of var, eliminate var out of place, retire var: {okl}")
     if not okl:
